@@ -30,6 +30,15 @@ def trial (p : Prob) (u : Unif) : Bool := decide ((u.num : Int) * p.den < p.num 
 /-- What `random.randint(-v, v)` does with the draw `d` it is given: `ValueError` (empty range) when `v < 0`. -/
 def randintOk (v : Int) : Bool := decide (0 ≤ v)
 
+/-- A configured string value: node name, address, user name, password, port / protocol name … (the theorems never
+look inside; the driver and the rig pass the strings of the settings through). -/
+abbrev Val := String
+
+/-- `AbstractTAP._select_start_node` / `TAP001._select_target_ip`: the default when the configured list is empty (or
+`None`), otherwise `random.choice(xs)`; `k` is the index that draw selects (`none` = index outside the list, which a
+draw of `random.choice` never is). -/
+def pick (xs : List Val) (dflt : Val) (k : Nat) : Option Val := if xs.isEmpty then some dflt else xs[k]?
+
 /-! ### PeriodicAgent (random_agent.py) -/
 
 structure PeriodicCfg where
@@ -173,6 +182,50 @@ def probAgentChoice (o : VectorOrder) (tb : Table) (nActions : Nat) (u : Unif) :
   match tb.vector o with
   | none => .raised
   | some ws => choice nActions ws u
+
+/-! ### numpy's `Generator.choice(n, p=p)` with its argument checks and its right-sided binary search
+
+`_generator.pyx`: `p.size != pop_size` → ValueError; NaN → ValueError; any `p < 0` → ValueError;
+`abs(kahan_sum(p) - 1.) > atol` with `atol = sqrt(finfo(float64).eps) = 2⁻²⁶` → ValueError; then
+`cdf = p.cumsum(); cdf /= cdf[-1]; idx = cdf.searchsorted(random(), side='right')`. -/
+
+/-- `atol` of `Generator.choice`: `sqrt(2⁻⁵²) = 2⁻²⁶`, as the denominator of the comparison. -/
+def npTolDen : Nat := 2 ^ 26
+
+/-- The accepted band: `|Σp − 1| ≤ 2⁻²⁶` for `p = ws / den` (numpy raises when the difference is *greater* than `atol`). -/
+def npSumOk (den : Nat) (ws : List Int) : Bool := decide ((ws.sum - den).natAbs * npTolDen ≤ den)
+
+/-- `probabilities_sum_to_one` of the settings schema: `abs(sum(v.values()) - 1) < 1e-6`. -/
+def validatorSumOk (den : Nat) (ws : List Int) : Bool := decide ((ws.sum - den).natAbs * 1000000 < den)
+
+/-- `rng.choice(nActions, p = ws / den)` with the uniform draw `u`, argument checks included; after the checks the index
+is found on `cdf = cumsum(p) / cumsum(p)[-1]` (so a sum inside the band but different from 1 is normalised away). -/
+def choiceNp (nActions : Nat) (den : Nat) (ws : List Int) (u : Unif) : ChoiceOut :=
+  if ws.length ≠ nActions ∨ nActions = 0 then .raised            -- sizes differ / `a` must be a positive integer
+  else if ws.any (· < 0) then .raised                             -- probabilities are not non-negative
+  else if ¬ npSumOk den ws then .raised                           -- probabilities do not sum to 1
+  else choice nActions (ws.map Int.toNat) u
+
+/-- `npy_binsearch<side = right>` on a list: `while lo < hi: mid = lo + (hi − lo)/2; if key < arr[mid] then hi = mid
+else lo = mid + 1`; `fuel` bounds the number of iterations (`hi − lo` suffices). -/
+def bsearchRight {F : Type} (lt : F → F → Bool) (arr : List F) (key : F) : Nat → Nat → Nat → Nat
+  | 0, lo, _ => lo
+  | fuel + 1, lo, hi =>
+    if lo < hi then
+      match arr[lo + (hi - lo) / 2]? with
+      | some m => if lt key m then bsearchRight lt arr key fuel lo (lo + (hi - lo) / 2)
+                  else bsearchRight lt arr key fuel (lo + (hi - lo) / 2 + 1) hi
+      | none => lo
+    else lo
+
+/-- `cdf.searchsorted(u, side='right')`. -/
+def searchsortedRight {F : Type} (lt : F → F → Bool) (arr : List F) (key : F) : Nat :=
+  bsearchRight lt arr key arr.length 0 arr.length
+
+/-- `cumsum`: running sums with the addition of the number type (`acc` = the sum so far). -/
+def cumsumFrom {F : Type} (add : F → F → F) : F → List F → List F
+  | _, [] => []
+  | acc, w :: ws => add acc w :: cumsumFrom add (add acc w) ws
 
 /-! ### RandomAgent (random_agent.py) -/
 
